@@ -87,7 +87,12 @@ func genNeg(r *Rng) Sx {
 		produces = r.Shuffle(r.Subset(append([]string{"*/*", "text/html"}, negTypes...), 40))
 	}
 	dflt := r.Pick([]string{"", "", "application/json", "application/xml"})
-	return L(Strs(registered), Strs(produces), A(dflt), A(genAccept(r, produces)), B(r.Pct(10)))
+	preset := ""
+	if r.Pct(12) {
+		// a filter or the handler itself already put a Content-Type on the response before the entity is written
+		preset = r.Pick([]string{"text/plain", "text/plain; charset=utf-8", "application/octet-stream", "application/json; charset=utf-8"})
+	}
+	return L(Strs(registered), Strs(produces), A(dflt), A(genAccept(r, produces)), B(r.Pct(10)), A(preset))
 }
 
 type negValue struct {
@@ -97,6 +102,10 @@ type negValue struct {
 
 func runNeg(raw Sx) (Sx, Sx) {
 	registered, produces, dflt, accept, trace := sxStrs(sxNth(raw, 0)), sxStrs(sxNth(raw, 1)), sxStr(sxNth(raw, 2)), sxStr(sxNth(raw, 3)), sxBool(sxNth(raw, 4))
+	preset := ""
+	if len(sxList(raw)) > 5 {
+		preset = sxStr(sxNth(raw, 5))
+	}
 	reg := map[string]restful.EntityReaderWriter{}
 	for _, k := range registered {
 		if k == "application/xml" {
@@ -119,43 +128,62 @@ func runNeg(raw Sx) (Sx, Sx) {
 	c := restful.NewContainer()
 	ws := new(restful.WebService)
 	ws.Path("/n")
-	b := ws.GET("/v").To(func(rq *restful.Request, rp *restful.Response) { rp.WriteEntity(negValue{A: 7}) })
+	b := ws.GET("/v").To(func(rq *restful.Request, rp *restful.Response) {
+		if preset != "" {
+			rp.AddHeader("Content-Type", preset)
+		}
+		rp.WriteEntity(negValue{A: 7})
+	})
 	if len(produces) > 0 {
 		b.Produces(produces...)
 	}
 	ws.Route(b)
 	c.Add(ws)
-	panicked := 0
-	statuses, cts, decs := Ls{}, Ls{}, Ls{}
-	for k := 0; k < 6; k++ {
-		q := &Req{Method: "GET", Path: "/n/v"}
-		if accept != "" {
-			q.Set("Accept", accept)
-		}
-		rec := httptest.NewRecorder()
-		func() {
-			defer func() {
-				if r := recover(); r != nil {
-					panicked = 1
-				}
+	serve := func(times int) (int, Ls, Ls, Ls) {
+		panicked := 0
+		statuses, cts, decs := Ls{}, Ls{}, Ls{}
+		for k := 0; k < times; k++ {
+			q := &Req{Method: "GET", Path: "/n/v"}
+			if accept != "" {
+				q.Set("Accept", accept)
+			}
+			rec := httptest.NewRecorder()
+			func() {
+				defer func() {
+					if r := recover(); r != nil {
+						panicked = 1
+					}
+				}()
+				c.Dispatch(rec, q.HTTP())
 			}()
-			c.Dispatch(rec, q.HTTP())
-		}()
-		ct := rec.Header().Get("Content-Type")
-		dec := 0
-		var v negValue
-		if ct == "application/xml" {
-			if xml.Unmarshal(rec.Body.Bytes(), &v) == nil && v.A == 7 {
-				dec = 1
+			ct := rec.Header().Get("Content-Type")
+			dec := 0
+			var v negValue
+			if ct == "application/xml" {
+				if xml.Unmarshal(rec.Body.Bytes(), &v) == nil && v.A == 7 {
+					dec = 1
+				}
+			} else if ct != "" {
+				if json.Unmarshal(rec.Body.Bytes(), &v) == nil && v.A == 7 {
+					dec = 1
+				}
 			}
-		} else if ct != "" {
-			if json.Unmarshal(rec.Body.Bytes(), &v) == nil && v.A == 7 {
-				dec = 1
-			}
+			statuses = append(statuses, rec.Code)
+			cts = append(cts, A(ct))
+			decs = append(decs, dec)
 		}
-		statuses = append(statuses, rec.Code)
-		cts = append(cts, A(ct))
-		decs = append(decs, dec)
+		return panicked, statuses, cts, decs
+	}
+	panicked, statuses, cts, decs := serve(6)
+	// the same request with trace logging flipped: the set of answers must be the same (C19)
+	traceSame := 1
+	if !trace { // (with TraceLogger(nil) there is no logger to switch on)
+		restful.EnableTracing(true)
+		_, st2, ct2, _ := serve(6)
+		restful.EnableTracing(false)
+		if SxString(setOf(statuses)) != SxString(setOf(st2)) || SxString(setOf(cts)) != SxString(setOf(ct2)) {
+			traceSame = 0
+		}
 	}
 	// oracle: every q string of the header, ranked by the float strconv.ParseFloat gives it
 	qs := map[string]bool{"1": true}
@@ -192,7 +220,26 @@ func runNeg(raw Sx) (Sx, Sx) {
 		}
 		rows = append(rows, L(A(v.s), rank))
 	}
-	return L(rows, Strs(registered), Strs(produces), A(dflt), A(accept), B(trace)), L(panicked, statuses, cts, decs)
+	return L(rows, Strs(registered), Strs(produces), A(dflt), A(accept), B(trace), A(preset)), L(panicked, statuses, cts, decs, traceSame)
+}
+
+// the distinct elements of a list, sorted by their printed form
+func setOf(l Ls) Ls {
+	seen := map[string]Sx{}
+	keys := []string{}
+	for _, x := range l {
+		k := SxString(x)
+		if _, ok := seen[k]; !ok {
+			seen[k] = x
+			keys = append(keys, k)
+		}
+	}
+	sort.Strings(keys)
+	out := Ls{}
+	for _, k := range keys {
+		out = append(out, seen[k])
+	}
+	return out
 }
 
 func init() { domains["neg"] = domain{gen: genNeg, run: runNeg} }
